@@ -53,3 +53,13 @@ pub fn hash_lines(lines: &[String]) -> u64 {
     }
     h
 }
+
+/// Sub-campaigns of C01 (payment channel, market, reward) label their sequences with an offset so that
+/// a replay header names a sequence number that `ba_harness c01 --only-seq N` dispatches back to them.
+pub static SEQ_LABEL_OFFSET: std::sync::atomic::AtomicU64 = std::sync::atomic::AtomicU64::new(0);
+pub fn seq_label(seq: u64) -> u64 {
+    seq + SEQ_LABEL_OFFSET.load(std::sync::atomic::Ordering::Relaxed)
+}
+pub const PAYCH_SEQ_BASE: u64 = 2_000_000;
+pub const MARKET_SEQ_BASE: u64 = 3_000_000;
+pub const REWARD_SEQ_BASE: u64 = 4_000_000;
